@@ -75,6 +75,8 @@ def kill_index(s, t):
 
 def act_sexp(a):
     k = a[0]
+    if k == "raw":
+        return ""
     if k == "c":
         return "(c %d)" % a[1]
     if k in ("skip", "expect", "call"):
@@ -216,7 +218,13 @@ def run_impl(driver, root, reporter, mode, timeout=60, env_extra=None, scn_extra
 # ------------------------------------------------------------------------------------------
 class ModelResult:
     def __init__(self, line):
-        head, evs, owns = line.split("|")
+        head, evs, owns, traces, inprem = line.split("|")
+        self.in_premises = inprem == "1"
+        self.traces = {}
+        for tr in traces.split(";"):
+            if tr:
+                k, v = tr.split(":")
+                self.traces["t" + k] = [x for x in v.split(",") if x]
         h = head.split()
         if h[0] == "fin":
             self.kind, self.status = "fin", int(h[1])
